@@ -129,7 +129,8 @@ def generate(pid, prop, reg):
             ob.lemmas, ob.unfold, ob.function = [], [], key
         obligations.extend(obs)
         functions.append({'function': f"{c['module']}:{c['qualname']}", 'ast_sha': c.get('_sha'),
-                          'obligations': len(obs), 'vcgen_s': round(time.time() - t0, 3)})
+                          'obligations': len(obs), 'vcgen_s': round(time.time() - t0, 3),
+                          'scope': 'syntactic frame obligation only (assumed function symbol; values are checked by executable contract, bounded)'})
     if hasattr(prop, 'extra_obligations'):
         interp = Interp(reg, pid)
         for ob in prop.extra_obligations(interp, reg):
